@@ -532,9 +532,19 @@ class EndState(Base):
     """Collects how the run ended (for offline closure comparisons)."""
     NAME = 'end'
 
+    def __init__(self, case, phase):
+        super().__init__(case, phase)
+        self.submit_iters = []
+
+    def on_event(self, ev):
+        if ev['k'] == 'SUBMIT_CMD':
+            for j in ev['jobs']:
+                self.submit_iters.append([j.rsplit('/', 1)[0], ev['it']])
+
     def summary(self, drv):
         led = drv.ledger
         return {
+            'submit_iters': self.submit_iters,
             'submitted': sorted(f'{t}' for t in led.submits),
             'submits': {k: v for k, v in led.submits.items()},
             'manual': sorted(led.manual),
@@ -543,3 +553,25 @@ class EndState(Base):
             'stalled': bool(drv.stall_seen),
             'final_pool': getattr(drv, 'last_pool', None),
         }
+
+
+class StopWatch(Base):
+    """Which jobs of pooled active tasks were live when the scheduler
+    exited (C43 clean / --now)."""
+    NAME = 'stopw'
+
+    def __init__(self, case, phase):
+        super().__init__(case, phase)
+        self.live = None
+
+    def on_phase_end(self, drv):
+        pool = {t['id']: t for t in (getattr(drv, 'last_pool', None) or [])}
+        live = []
+        for j in drv.world.live_jobs():
+            t = pool.get(f'{j.point}/{j.name}')
+            if t and t['status'] in ACTIVE and t['submit_num'] == j.num:
+                live.append(j.jid)
+        self.live = live
+
+    def summary(self, drv):
+        return {'live_at_exit': self.live}
